@@ -1,6 +1,7 @@
 import STProofs.Structure
 import STProofs.StructureProp
 import STProofs.NDAdjoint
+import STProofs.NDEnergy
 /-!
 # C13 — coordinates are solved independently (every order, N, D)
 
@@ -12,5 +13,6 @@ import STProofs.NDAdjoint
   states and upstream gradient), `propagateND_times` (duration gradient = upstream + sum over coordinates).
 
 Together with the 1-D adjoint theorems of C05 this gives `NDAdj.propagateND_adjoint`: the D-dimensional `propagateGrad` is
-the exact adjoint of the D-dimensional construction map (sum over coordinates of the 1-D identities).
+the exact adjoint of the D-dimensional construction map (sum over coordinates of the 1-D identities); likewise
+`NDEnergy.energyND_grad` for the analytic energy gradients.
 -/
